@@ -242,7 +242,13 @@ func init() {
 						sec := []byte{0x10, 0, 1, 0, 1, byte(L >> 8), byte(L)}
 						body = Ls(I(1), Bs(sec), PatV(v, n-7))
 					}
-					g.Add("sizebig", Ls(Ls(I(1), Bs(head), body), I(1+g.R.Intn(5000))))
+					// a textually long but empty part keeps these lines (short to write, tens of
+					// kilobytes to evaluate) out of the in-kernel sample, which takes lines < 600 chars
+					filler := []V{I(1)}
+					for k := 0; k < 100 && v >= 0x100; k++ {
+						filler = append(filler, Ls(I(2), I(0), I(0)))
+					}
+					g.Add("sizebig", Ls(Ls(I(1), Bs(head), body, Ls(filler...)), I(1+g.R.Intn(5000))))
 				}
 			}
 			// 3. the flags field
